@@ -101,7 +101,7 @@ func regexMatch(pat, name string, delim byte) bool {
 func runC20(h *H) {
 	imports := []string{"From GoImap.Base Require Import Bytes.", "From GoImap.Model Require Import MatchList."}
 	corr := h.NewCorr("matchlist", imports, "ml_mismatches", 2500).Type("ml_case")
-	h.Rule("MatchList(name, delim, ref, pattern): corpus (incl. non-ASCII delimiters), exhaustive over names in {a,b,/}* and patterns in {a,b,/,*,%}* up to the tier's lengths x 5 references x delimiter {'/', none}, seeded random up to length 12. Non-trivial = the pattern contains a wildcard and the name is non-empty; distinct by (name, delim, ref, pattern).")
+	h.Rule("MatchList(name, delim, ref, pattern): corpus (incl. non-ASCII delimiters), exhaustive over names in {a,b,/}* and patterns in {a,b,/,*,%}* up to the tier's lengths x 5 references x delimiter {'/', none}, names over {a,/} x short patterns x references ending in two or more delimiters, seeded random up to length 12. Non-trivial = the pattern contains a wildcard and the name is non-empty; distinct by (name, delim, ref, pattern).")
 
 	one := func(name string, delim rune, ref, pat, src string) {
 		h.InFlight(mlCase{name, delim, ref, pat, false})
@@ -189,6 +189,15 @@ func runC20(h *H) {
 				for _, p := range pats {
 					one(n, delim, ref, p, "exhaustive")
 				}
+			}
+		}
+	}
+	// references ending in two or more delimiters (the reference is a literal prefix: "a//" is
+	// not "a/")
+	for _, ref := range []string{"a//", "//", "a///", "/a//"} {
+		for _, n := range gen("a/", 5) {
+			for _, p := range gen("a/*%", 2) {
+				one(n, '/', ref, p, "exhaustive-double-delimiter-reference")
 			}
 		}
 	}
